@@ -5,7 +5,8 @@
 int verif_exc;
 
 void h_ppm_tail(void) {
-  size_t in_w, in_h, in_P, in_c;
+  uint8_t in_w, in_h, in_c; /* narrow inputs: the high bits of every size product are constants for the solver; the contract bounds them by C06_DIM <= 16 anyway */
+  uint16_t in_P;
   bool in_alpha = C06_ALPHA; /* constant per group: the strides become constants (the symbolic-stride query is 10x larger) */
   uint64_t in_maxv;
   g_P = in_P;
